@@ -2,7 +2,7 @@
    unpacker) returns conforms to the annotation: every field and element is built from the
    very class named there (Any positions unconstrained). *)
 From Coq Require Import List String Ascii ZArith Bool Lia.
-From Verif Require Import Core TyModel TyProofs.
+From Verif Require Import Core TupleIdx TyModel TyTuple TyProofs.
 Import ListNotations.
 Open Scope string_scope.
 Open Scope Z_scope.
@@ -165,7 +165,80 @@ Section Conform.
     - inversion H. reflexivity.
   Qed.
 
-  Lemma none_tail_conf ts : forall r, none_tail_t ts = Ok r ->
+  Lemma omapM_nt_all {B} (g: sfield -> option B) (q: sfield -> B -> bool) fds cs :
+    (forall f c, In f fds -> g f = Some c -> q f c = true) -> omapM g fds = Some cs -> nt_all q fds cs = true.
+  Proof.
+    revert cs. induction fds as [|f r IH]; intros cs Hq H.
+    - inversion H. reflexivity.
+    - cbn [omapM] in H. destruct (g f) as [c|] eqn:Eg; [|discriminate H].
+      destruct (omapM g r) as [ys|] eqn:Er; [|discriminate H]. inversion H; subst.
+      cbn [nt_all]. rewrite (Hq f c (or_introl eq_refl) Eg). apply IH; [|reflexivity].
+      intros f0 c0 Hf0. apply Hq. right. exact Hf0.
+  Qed.
+
+  Lemma omapM_tuple_conf (g: sty -> option pv) ts cs :
+    Forall (fun t => forall c, g t = Some c -> conf_g o E c t = true) ts -> omapM g ts = Some cs ->
+    (fix go (ts: list sty) (l: list pv) {struct l} : bool :=
+       match ts, l with
+       | [], [] => true
+       | t' :: ts', x :: l' => conf_g o E x t' && go ts' l'
+       | _, _ => false end) ts cs = true.
+  Proof.
+    intros HF. revert cs. induction HF as [|t1 ts H1 Hts IH]; intros cs Em.
+    - inversion Em. reflexivity.
+    - cbn [omapM] in Em. destruct (g t1) as [c1|] eqn:E1; [|discriminate Em].
+      destruct (omapM g ts) as [cs1|] eqn:E2; [|discriminate Em]. inversion Em.
+      rewrite (H1 c1 eq_refl). apply (IH cs1 eq_refl).
+  Qed.
+
+  (* conformance of a tuple with an unpacked segment from its three parts *)
+  Definition mid_conf (mid: sty) (m: list pv) : Prop :=
+    match mid with
+    | STupleVar t' => forallb (fun x => conf_g o E x t') m = true
+    | STupleFix ts => pos_all (fun t' x => conf_g o E x t') ts m = true
+    | _ => False end.
+
+  Lemma conf_tupleu_of_parts a m b pre mid post :
+    pos_all (fun t' x => conf_g o E x t') pre a = true -> mid_conf mid m ->
+    pos_all (fun t' x => conf_g o E x t') post b = true ->
+    conf_g o E (VTuple (a ++ m ++ b)) (STupleU pre mid post) = true.
+  Proof.
+    intros Ha Hm Hb. pose proof (pos_all_length _ _ _ Ha) as La. pose proof (pos_all_length _ _ _ Hb) as Lb.
+    destruct (app3_parts a m b) as [P1 [P2 P3]]. rewrite La in P1, P2. rewrite Lb in P2, P3.
+    apply conf_tupleu_intro.
+    - rewrite !app_length. lia.
+    - rewrite P1. exact Ha.
+    - rewrite P2. destruct mid; try contradiction; exact Hm.
+    - rewrite P3. exact Hb.
+  Qed.
+
+  (* a constant is an instance of its type *)
+  Lemma const_ty_conf_n n : forall t c, const_ty_n E n t = Some c -> conf_g o E c t = true.
+  Proof.
+    induction n as [|n IHn].
+    all: induction t as [ | | | | | | m' | k' | e' | t' IHt | fr' t' IHt | t' IHt | ts IHts | pre IHpre mid IHmid IHmide post IHpost | kt IHkt vt IHvt | t' IHt | c' | c' | c' | t' IHt | kt IHkt vt IHvt | bx t' IHt ]
+      using sty_ind'; intros c H; rewrite const_ty_n_unfold in H; try discriminate H.
+    all: try (inversion H; reflexivity).
+    all: try solve [
+      destruct (omapM (const_ty_n E _) pre) as [a|] eqn:Ea; [|discriminate H];
+      destruct mid; try discriminate H;
+      match type of H with (match omapM ?g ?l with _ => _ end = _) => destruct (omapM g l) as [m|] eqn:Em end; [|discriminate H];
+      destruct (omapM (const_ty_n E _) post) as [b|] eqn:Eb; [|discriminate H];
+      inversion H; apply conf_tupleu_of_parts;
+      [ apply (omapM_pos_all _ _ _ _ IHpre Ea) | apply (omapM_pos_all _ _ _ _ IHmide Em) | apply (omapM_pos_all _ _ _ _ IHpost Eb) ] ].
+    all: try (match type of H with (match omapM ?g ?l with _ => _ end = _) => destruct (omapM g l) as [cs|] eqn:Em end; [|discriminate H];
+              inversion H; rewrite conf_unfold; apply (omapM_tuple_conf _ _ _ IHts Em)).
+    destruct (sfind E KNamed c') as [k|] eqn:Ef; [|discriminate H].
+    destruct (has_default (sc_fields k)); [discriminate H|].
+    match type of H with (match ?X with _ => _ end = _) => destruct X as [cs|] eqn:Em end; [|discriminate H].
+    inversion H. rewrite conf_unfold, String.eqb_refl, Ef. cbn [andb].
+    refine (omapM_nt_all _ _ _ _ _ Em). intros f c0 _ Hc. apply (IHn _ _ Hc).
+  Qed.
+
+  Lemma const_ty_conf t c : const_ty E t = Some c -> conf_g o E c t = true.
+  Proof. apply const_ty_conf_n. Qed.
+
+  Lemma none_tail_conf ts : forall r, none_tail_t E ts = Ok r ->
     (fix go (ts: list sty) (l: list pv) {struct l} : bool :=
        match ts, l with
        | [], [] => true
@@ -174,11 +247,61 @@ Section Conform.
   Proof.
     induction ts as [|t ts IH]; intros r H.
     - cbn in H. inversion H. reflexivity.
-    - cbn [none_tail_t] in H. destruct (const_ty t) as [c|] eqn:Ec; [|discriminate].
-      destruct (none_tail_t ts) as [ys|]; [|discriminate]. cbn [bind] in H. inversion H; subst.
-      rewrite (IH ys eq_refl). rewrite andb_true_r.
-      destruct t; try discriminate; [inversion Ec; reflexivity|].
-      destruct ts0; [|discriminate]. inversion Ec. reflexivity.
+    - cbn [none_tail_t] in H. destruct (const_ty E t) as [c|] eqn:Ec; [|discriminate].
+      destruct (none_tail_t E ts) as [ys|]; [|discriminate]. cbn [bind] in H. inversion H; subst.
+      rewrite (IH ys eq_refl). rewrite andb_true_r. apply (const_ty_conf _ _ Ec).
+  Qed.
+
+  Lemma none_tail_pos_all ds r : none_tail_t E ds = Ok r -> pos_all (fun t' x => conf_g o E x t') ds r = true.
+  Proof.
+    revert r. induction ds as [|t ts IH]; intros r H.
+    - inversion H. reflexivity.
+    - cbn [none_tail_t] in H. destruct (const_ty E t) as [c|] eqn:Ec; [|discriminate].
+      destruct (none_tail_t E ts) as [ys|]; [|discriminate]. cbn [bind] in H. inversion H; subst.
+      cbn [pos_all]. rewrite (IH ys eq_refl), andb_true_r. apply (const_ty_conf _ _ Ec).
+  Qed.
+
+  (* whatever a walk over a tuple with an unpacked segment returns conforms, given that the item decoders do *)
+  Lemma tu_mid_conf {X} (run: sty -> X -> res pv) (items: option (list X)) mid (restricted: bool) sl m :
+    (forall d x y, In d (mid_elems mid) -> In_opt x items -> run d x = Ok y -> conf_g o E y d = true) ->
+    (forall x, In_opt x sl -> In_opt x items) ->
+    (match mid with
+     | STupleVar t' => if restricted then fun _ => Exn XTypeError else mid_var run t'
+     | STupleFix ts => mid_fix run (const_ty E) (none_tail_t E) ts
+     | _ => fun _ => Exn XTypeError end) sl = Ok m -> mid_conf mid m.
+  Proof.
+    intros Hr Hs H. destruct mid; try discriminate H.
+    - destruct restricted; [discriminate H|]. cbn [mid_conf].
+      apply (mid_var_all run (fun t' y => conf_g o E y t') _ sl m); [|exact H].
+      intros x y Hx. apply Hr; [left; reflexivity | apply Hs; exact Hx].
+    - cbn [mid_conf].
+      apply (mid_fix_all run (const_ty E) (none_tail_t E) (fun t' y => conf_g o E y t') const_ty_conf none_tail_pos_all _ sl m); [|exact H].
+      intros d x y Hd Hx. apply Hr; [exact Hd | apply Hs; exact Hx].
+  Qed.
+
+  Lemma tu_walk_conf {X} (run: sty -> X -> res pv) (items: option (list X)) pre mid post (restricted: bool) r0 :
+    (forall d x y, In d (pre ++ mid_elems mid ++ post) -> In_opt x items -> run d x = Ok y -> conf_g o E y d = true) ->
+    tu_walk run (const_ty E) items (tu_plan (List.length pre) (List.length post)) pre post
+      (match mid with
+       | STupleVar t' => if restricted then fun _ => Exn XTypeError else mid_var run t'
+       | STupleFix ts => mid_fix run (const_ty E) (none_tail_t E) ts
+       | _ => fun _ => Exn XTypeError end) = Ok r0 ->
+    conf_g o E (VTuple r0) (STupleU pre mid post) = true.
+  Proof.
+    intros Hr H.
+    assert (Hrr: forall d x y, In d (pre ++ post) -> In_opt x items -> run d x = Ok y -> conf_g o E y d = true).
+    { intros d x y Hd. apply Hr. apply in_app_or in Hd. apply in_or_app.
+      destruct Hd as [Hd|Hd]; [left; exact Hd | right; apply in_or_app; right; exact Hd]. }
+    assert (Hmm: forall sl m, (forall x, In_opt x sl -> In_opt x items) ->
+              (match mid with
+               | STupleVar t' => if restricted then fun _ => Exn XTypeError else mid_var run t'
+               | STupleFix ts => mid_fix run (const_ty E) (none_tail_t E) ts
+               | _ => fun _ => Exn XTypeError end) sl = Ok m -> mid_conf mid m).
+    { intros sl m Hs Hmid. apply (tu_mid_conf run items mid restricted sl m); [|exact Hs|exact Hmid].
+      intros d x y Hd. apply Hr. apply in_or_app. right. apply in_or_app. left. exact Hd. }
+    destruct (tu_walk_parts run (const_ty E) (fun t' y => conf_g o E y t') const_ty_conf items _ pre post _ r0 (mid_conf mid) Hrr Hmm H)
+      as [a [m [b [Hr0 [Ha [Hm Hb]]]]]].
+    subst r0. apply conf_tupleu_of_parts; assumption.
   Qed.
 
   Lemma sfind_wf kd c k : sfind E kd c = Some k ->
@@ -189,16 +312,11 @@ Section Conform.
     apply andb_prop in Hw. rewrite Hk in Hw. exact Hw.
   Qed.
 
-  Lemma const_ty_conf t c : const_ty t = Some c -> conf_g o E c t = true.
-  Proof.
-    destruct t as [ | | | | | | | | | | | | [|t1 ts1] | | t' | | | ]; intros H; try discriminate H; inversion H; reflexivity.
-  Qed.
-
   (* a successful TypedDict walk returns a conforming dict, keys in canonical order *)
   Lemma td_conf {D} (run: sfield -> D -> res pv) ms es fds R :
     names_nodup fds = true ->
     (forall f d y, In f fds -> look es (sf_name f) = Some d -> run f d = Ok y -> conf_g o E y (sf_ty f) = true) ->
-    td_go run konst_t ms es (td_order fds) = Ok R ->
+    td_go run (konst_t E) ms es (td_order fds) = Ok R ->
     nodup_keys R && forallb (fun p => key_declared fds (fst p)) R &&
     (let cs : list (pv * (sty -> bool)) := map (fun p => match p with (key, x) => (key, conf_g o E x) end) R in
      forallb (fun f => match look cs (sf_name f) with Some cx => cx (sf_ty f) | None => sf_opt f end) fds) &&
@@ -212,12 +330,12 @@ Section Conform.
     - cbv zeta. apply forallb_forall. intros f Hf. rewrite (look_map (conf_g o E) R).
       destruct (td_go_look _ _ _ _ _ _ Hno HR f (In_td_order_iff f fds Hf)) as [[Hnone Hl] | [y [Hsome Hl]]];
         rewrite Hl; cbn [option_map]; unfold td_field in *.
-      + destruct (sf_opt f); [reflexivity|]. destruct (konst_t f); [discriminate Hnone|].
+      + destruct (sf_opt f); [reflexivity|]. destruct ((konst_t E) f); [discriminate Hnone|].
         destruct (look es (sf_name f)); discriminate Hnone.
       + destruct (sf_opt f).
         * destruct (look es (sf_name f)) as [d|] eqn:El; [|discriminate Hsome]. inversion Hsome as [Hy].
           apply (Hrun f d y Hf El Hy).
-        * destruct (konst_t f) as [c|] eqn:Ek.
+        * destruct ((konst_t E) f) as [c|] eqn:Ek.
           -- inversion Hsome; subst. apply const_ty_conf. exact Ek.
           -- destruct (look es (sf_name f)) as [d|] eqn:El; [|discriminate Hsome]. inversion Hsome as [Hy].
              apply (Hrun f d y Hf El Hy).
@@ -225,7 +343,7 @@ Section Conform.
   Qed.
 
   Lemma td_nondict_conf c k r : sfind E KTyped c = Some k ->
-    td_nondict konst_t k.(sc_fields) = Ok r -> conf_g o E r (STyped c) = true.
+    td_nondict (konst_t E) k.(sc_fields) = Ok r -> conf_g o E r (STyped c) = true.
   Proof.
     intros Ef H. unfold td_nondict in H.
     match type of H with (bind ?X _ = _) => destruct X as [R|] eqn:Em end; [|discriminate H]. cbn [bind] in H.
@@ -249,13 +367,30 @@ Section Conform.
     rewrite forallb_forall in Hd. apply Hd. exact Hf.
   Qed.
 
+  (* boxed collections: the class around a conforming list / dict conforms (the content [[{}]] of a ChainMap is
+     normalised to [[]]: an empty list conforms wherever a list does) *)
+  Lemma conf_vlist_nil l : forall t, conf_g o E (VList l) t = true -> conf_g o E (VList []) t = true.
+  Proof.
+    induction t; intros H; rewrite conf_unfold in H; rewrite conf_unfold; try discriminate H; try reflexivity.
+    cbn [is_none orb] in *. apply IHt. exact H.
+  Qed.
+
+  Lemma box_conf b r0 t : conf_g o E r0 t = true -> conf_g o E (box_val b r0) (SBox b t) = true.
+  Proof.
+    intros H. unfold box_val. rewrite conf_unfold. rewrite !String.eqb_refl. cbn [andb]. unfold chain_canon.
+    destruct b; cbn [is_chain andb negb]; try exact H.
+    destruct r0 as [ | | | | | | l | | | | | | | | ]; try exact H.
+    destruct l as [|x l']; try exact H. destruct x as [ | | | | | | | | | kvs | | | | | ]; destruct l'; try exact H.
+    all: destruct kvs; try exact H. apply (conf_vlist_nil _ _ H).
+  Qed.
+
   Lemma dec_str_conf_gen n :
-    (forall n', n = S n' -> forall t s r, ref_dec_str E P n' t s = Ok r -> conf_g o E r t = true) ->
-    forall t s r, ref_dec_str E P n t s = Ok r -> conf_g o E r t = true.
+    (forall n', n = S n' -> forall t s r, ref_dec_str_l E P n' t s = Ok r -> conf_g o E r t = true) ->
+    forall t s r, ref_dec_str_l E P n t s = Ok r -> conf_g o E r t = true.
   Proof.
     intros Hprev.
-    induction t as [ | | | | | | m' | k' | e' | t' IHt | fr' t' IHt | t' IHt | ts IHts | kt IHkt vt IHvt | t' IHt | c' | c' | c' ]
-      using sty_ind'; intros s r H; rewrite ref_dec_str_unfold in H.
+    induction t as [ | | | | | | m' | k' | e' | t' IHt | fr' t' IHt | t' IHt | ts IHts | pre IHpre mid IHmid IHmide post IHpost | kt IHkt vt IHvt | t' IHt | c' | c' | c' | t' IHt | kt IHkt vt IHvt | bx t' IHt ]
+      using sty_ind'; intros s r H; rewrite (ref_dec_str_unfold E P false) in H.
     - rewrite conf_unfold. reflexivity.
     - inversion H. reflexivity.
     - apply (coerce_conf SInt _ _ H).
@@ -278,9 +413,15 @@ Section Conform.
       + inversion Em. reflexivity.
       + destruct cs as [|c0 cs].
         * apply (none_tail_conf (t1 :: ts) l Em).
-        * destruct (ref_dec_str E P n t1 c0) as [y|] eqn:Ey; [|discriminate]. cbn [bind] in Em.
+        * destruct (ref_dec_str_l E P n t1 c0) as [y|] eqn:Ey; [|discriminate]. cbn [bind] in Em.
           match type of Em with (bind ?X _ = _) => destruct X as [ys|] eqn:Eys end; [|discriminate].
           inversion Em; subst. rewrite (H1 c0 y Ey). cbn [andb]. apply (IH cs ys Eys).
+    - (* tuple with an unpacked segment from a str *)
+      match type of H with (bind ?X _ = _) => destruct X as [r0|] eqn:Em end; [|discriminate]. cbn [bind] in H. inversion H.
+      unfold tu_ref in Em.
+      apply (tu_walk_conf (ref_dec_str_l E P n) (Some (utf8_chars s)) pre mid post false r0); [|destruct mid; exact Em].
+      intros d x y Hd _. apply in_app_or in Hd. destruct Hd as [Hd|Hd]; [apply (Forall_In _ _ IHpre d Hd)|].
+      apply in_app_or in Hd. destruct Hd as [Hd|Hd]; [apply (Forall_In _ _ IHmide d Hd) | apply (Forall_In _ _ IHpost d Hd)].
     - discriminate.
     - rewrite conf_unfold. rewrite (IHt s r H). apply orb_true_r.
     - destruct (sfind E _ c') as [k|] eqn:Ef; discriminate.
@@ -289,45 +430,52 @@ Section Conform.
       destruct n as [|n']; [discriminate H|].
       match type of H with (bind ?X _ = _) => destruct X as [l|] eqn:Em end; [|discriminate H]. cbn [bind] in H. inversion H.
       rewrite conf_unfold. rewrite String.eqb_refl, Ef. cbn [andb].
-      refine (nt_items_all (fun f y => conf_g o E y (sf_ty f)) (fun f => default_ok KNamed f = true) _ konst_t _ _ _ _ _ _ (nt_fields_ok _ _ Ef) _ Em).
+      refine (nt_items_all (fun f y => conf_g o E y (sf_ty f)) (fun f => default_ok KNamed f = true) _ (konst_t E) _ _ _ _ _ _ (nt_fields_ok _ _ Ef) _ Em).
       + intros f c Hc. apply const_ty_conf. exact Hc.
       + intros rest r0 HG Hm. apply (nt_miss_ok rest r0 HG _ Hm).
       + intros f x y _ Hy. apply (Hprev n' eq_refl _ _ _ Hy).
     - (* TypedDict from a str *)
       destruct (sfind E _ c') as [k|] eqn:Ef; [|discriminate H]. apply (td_nondict_conf _ _ _ Ef H).
+    - (* Sequence *)
+      destruct (mapM _ _) as [l|] eqn:Em; [|discriminate]. cbn [bind] in H. inversion H. rewrite conf_unfold.
+      apply (forallb_mapM_res _ _ _ _ (fun x y _ Hy => IHt x y Hy) Em).
+    - discriminate.
+    - (* boxed collection *)
+      destruct (ref_dec_str_l E P n t' s) as [r0|] eqn:Er; [|discriminate H]. cbn [bind] in H. inversion H.
+      apply box_conf. apply (IHt s r0 Er).
   Qed.
 
-  Lemma dec_str_conf n : forall t s r, ref_dec_str E P n t s = Ok r -> conf_g o E r t = true.
+  Lemma dec_str_conf n : forall t s r, ref_dec_str_l E P n t s = Ok r -> conf_g o E r t = true.
   Proof.
     induction n as [|n IHn]; apply dec_str_conf_gen.
     - intros n' Hc. discriminate Hc.
     - intros n' Hc. inversion Hc; subst. exact IHn.
   Qed.
 
-  Definition conf_ok (d: pv) : Prop := forall t r, ref_dec E P d t = Ok r -> conf_g o E r t = true.
+  Definition conf_ok (d: pv) : Prop := forall t r, ref_dec_l E P d t = Ok r -> conf_g o E r t = true.
 
   Lemma named_conf d c r :
     (forall x, In x (match d with VList l | VTuple l => l | _ => [] end) -> conf_ok x) ->
-    ref_dec E P d (SNamed c) = Ok r -> conf_g o E r (SNamed c) = true.
+    ref_dec_l E P d (SNamed c) = Ok r -> conf_g o E r (SNamed c) = true.
   Proof.
-    intros IH H. rewrite ref_dec_unfold in H.
+    intros IH H. rewrite (ref_dec_unfold E P false) in H.
     destruct (sfind E _ c) as [k|] eqn:Ef; [|discriminate H].
     assert (Hseq: forall l, (forall x, In x l -> conf_ok x) ->
-              (r0 <- nt_items (fun f x => ref_dec E P x (sf_ty f)) konst_t (nt_exhausted (has_default (sc_fields k))) (sc_fields k) l ;;
+              (r0 <- nt_items (fun f x => ref_dec_l E P x (sf_ty f)) (konst_t E) (nt_exhausted (has_default (sc_fields k))) (sc_fields k) l ;;
                Ok (VNT c r0)) = Ok r -> conf_g o E r (SNamed c) = true).
     { intros l IHl H0.
       match type of H0 with (bind ?X _ = _) => destruct X as [l0|] eqn:Em end; [|discriminate H0]. cbn [bind] in H0. inversion H0.
       rewrite conf_unfold. rewrite String.eqb_refl, Ef. cbn [andb].
-      refine (nt_items_all (fun f y => conf_g o E y (sf_ty f)) (fun f => default_ok KNamed f = true) _ konst_t _ _ _ _ _ _ (nt_fields_ok _ _ Ef) _ Em).
+      refine (nt_items_all (fun f y => conf_g o E y (sf_ty f)) (fun f => default_ok KNamed f = true) _ (konst_t E) _ _ _ _ _ _ (nt_fields_ok _ _ Ef) _ Em).
       + intros f c0 Hc. apply const_ty_conf. exact Hc.
       + intros rest r0 HG Hm. apply (nt_miss_ok rest r0 HG _ Hm).
       + intros f x y Hx Hy. apply (IHl x Hx _ _ Hy). }
-    assert (Hoth: (r0 <- nt_tail konst_t (fun _ => Exn XTypeError) (sc_fields k) ;; Ok (VNT c r0)) = Ok r ->
+    assert (Hoth: (r0 <- nt_tail (konst_t E) (fun _ => Exn XTypeError) (sc_fields k) ;; Ok (VNT c r0)) = Ok r ->
                   conf_g o E r (SNamed c) = true).
     { intros H0.
       match type of H0 with (bind ?X _ = _) => destruct X as [l0|] eqn:Em end; [|discriminate H0]. cbn [bind] in H0. inversion H0.
       rewrite conf_unfold. rewrite String.eqb_refl, Ef. cbn [andb].
-      refine (nt_tail_all (fun f y => conf_g o E y (sf_ty f)) (fun f => default_ok KNamed f = true) konst_t _ _ _ _ _ (nt_fields_ok _ _ Ef) Em).
+      refine (nt_tail_all (fun f y => conf_g o E y (sf_ty f)) (fun f => default_ok KNamed f = true) (konst_t E) _ _ _ _ _ (nt_fields_ok _ _ Ef) Em).
       + intros f c0 Hc. apply const_ty_conf. exact Hc.
       + intros rest r0 _ Hm. discriminate Hm. }
     destruct d; try (apply Hoth; exact H).
@@ -336,18 +484,51 @@ Section Conform.
     - apply (Hseq l IH H).
   Qed.
 
+  Lemma tupleu_conf d pre mid post r :
+    (forall x, In x (match d with VList l | VTuple l => l | _ => [] end) -> conf_ok x) ->
+    ref_dec_l E P d (STupleU pre mid post) = Ok r -> conf_g o E r (STupleU pre mid post) = true.
+  Proof.
+    intros IH H. rewrite (ref_dec_unfold E P false) in H.
+    assert (Hseq: forall l, (forall x, In x l -> conf_ok x) ->
+              (r0 <- tu_ref E false (fun (t': sty) (dx: sty -> res pv) => dx t') (none_tail_t E)
+                       (map (fun x => ref_dec_l E P x) l) pre mid post ;; Ok (VTuple r0)) = Ok r ->
+              conf_g o E r (STupleU pre mid post) = true).
+    { intros l IHl H0.
+      match type of H0 with (bind ?X _ = _) => destruct X as [r0|] eqn:Em end; [|discriminate H0]. cbn [bind] in H0. inversion H0.
+      unfold tu_ref in Em.
+      apply (tu_walk_conf (fun (t': sty) (dx: sty -> res pv) => dx t') (Some (map (fun x => ref_dec_l E P x) l)) pre mid post false r0);
+        [|destruct mid; exact Em].
+      intros d0 dx y _ Hx Hy. cbn in Hx. apply in_map_iff in Hx. destruct Hx as [x [Hdx Hx]]. subst dx.
+      apply (IHl x Hx d0 y Hy). }
+    assert (Hoth:
+      (r0 <- tu_walk (fun (t': sty) (dx: sty -> res pv) => dx t') (const_ty E) None
+               (tu_plan (List.length pre) (List.length post)) pre post
+               (match mid with
+                | STupleFix ts => mid_fix (fun (t': sty) (dx: sty -> res pv) => dx t') (const_ty E) (none_tail_t E) ts
+                | _ => fun _ => Exn XTypeError end) ;; Ok (VTuple r0)) = Ok r ->
+      conf_g o E r (STupleU pre mid post) = true).
+    { intros H0.
+      match type of H0 with (bind ?X _ = _) => destruct X as [r0|] eqn:Em end; [|discriminate H0]. cbn [bind] in H0. inversion H0.
+      apply (tu_walk_conf (fun (t': sty) (dx: sty -> res pv) => dx t') None pre mid post true r0);
+        [intros d0 dx y _ [] | destruct mid; exact Em]. }
+    destruct d; try (apply Hoth; exact H).
+    - apply (dec_str_conf _ (STupleU pre mid post) _ _ H).
+    - apply (Hseq l IH H).
+    - apply (Hseq l IH H).
+  Qed.
+
   Lemma typed_conf d c r :
     (forall x, In x (match d with VDict kvs => map snd kvs | _ => [] end) -> conf_ok x) ->
-    ref_dec E P d (STyped c) = Ok r -> conf_g o E r (STyped c) = true.
+    ref_dec_l E P d (STyped c) = Ok r -> conf_g o E r (STyped c) = true.
   Proof.
-    intros IH H. rewrite ref_dec_unfold in H.
+    intros IH H. rewrite (ref_dec_unfold E P false) in H.
     destruct (sfind E _ c) as [k|] eqn:Ef; [|discriminate H].
     destruct d; try (apply (td_nondict_conf _ _ _ Ef H)).
     cbv zeta in H.
     match type of H with (bind ?X _ = _) => destruct X as [R|] eqn:Em end; [|discriminate H]. cbn [bind] in H. inversion H.
     rewrite conf_unfold, Ef. destruct (sfind_wf _ _ _ Ef) as [Hn _].
     refine (td_conf _ _ _ _ _ Hn _ Em).
-    intros f d y _ Hl Hy. rewrite (look_map (ref_dec E P) kvs) in Hl.
+    intros f d y _ Hl Hy. rewrite (look_map (ref_dec_l E P) kvs) in Hl.
     destruct (look kvs (sf_name f)) as [x|] eqn:El; [|discriminate Hl]. cbn [option_map] in Hl. inversion Hl; subst d.
     destruct (look_In _ _ _ El) as [key [Hin _]].
     apply (IH x); [|exact Hy]. apply in_map_iff. exists (key, x). split; [reflexivity | exact Hin].
@@ -357,10 +538,11 @@ Section Conform.
   Proof.
     induction d as [ | b | z | f | s | m b | l IHl | l IHl | fr l IHl | kvs IHk | c fs IHf | e m | k w | c l IHl | tg ]
       using pv_rect'; unfold conf_ok.
-    all: intros t; induction t as [ | | | | | | m' | k' | e' | t' IHt | fr' t' IHt | t' IHt | ts | kt IHkt vt IHvt | t' IHt | c' | c' | c' ];
-      intros r H; pose proof H as H0; rewrite ref_dec_unfold in H.
+    all: intros t; induction t as [ | | | | | | m' | k' | e' | t' IHt | fr' t' IHt | t' IHt | ts | pre mid IHmid post | kt IHkt vt IHvt | t' IHt | c' | c' | c' | t' IHt | kt IHkt vt IHvt | bx t' IHt ];
+      intros r H; pose proof H as H0; rewrite (ref_dec_unfold E P false) in H.
     (* NamedTuple / TypedDict *)
     all: try solve [ refine (named_conf _ c' r _ H0); cbn; intros x Hx; first [ destruct Hx | apply (Forall_In _ _ IHl x Hx) ] ].
+    all: try solve [ refine (tupleu_conf _ pre mid post r _ H0); cbn; intros x Hx; first [ destruct Hx | apply (Forall_In _ _ IHl x Hx) ] ].
     all: try solve [ refine (typed_conf _ c' r _ H0); cbn; intros x Hx; try (destruct Hx; fail);
                      apply in_map_iff in Hx; destruct Hx as [p [Hp1 Hp2]]; subst x;
                      apply (proj2 (Forall_In _ _ IHk p Hp2)) ].
@@ -380,9 +562,9 @@ Section Conform.
                      first [ inversion H; reflexivity | rewrite (IHt r H); apply orb_true_r ] ].
     (* str inputs *)
     all: try solve [ first [ apply (dec_str_conf _ (SList t') _ _ H) | apply (dec_str_conf _ (SSet fr' t') _ _ H)
-                           | apply (dec_str_conf _ (STupleVar t') _ _ H) | apply (dec_str_conf _ (STupleFix ts) _ _ H) ] ].
+                           | apply (dec_str_conf _ (STupleVar t') _ _ H) | apply (dec_str_conf _ (STupleFix ts) _ _ H) | apply (dec_str_conf _ (SSeq t') _ _ H) ] ].
     (* fixed tuple / dataclass given a non-sequence / non-mapping *)
-    all: try solve [ destruct (none_tail_t ts) as [r0|] eqn:En; [|discriminate H]; cbn [bind] in H; inversion H;
+    all: try solve [ destruct (none_tail_t E ts) as [r0|] eqn:En; [|discriminate H]; cbn [bind] in H; inversion H;
                      rewrite conf_unfold; apply (none_tail_conf ts r0 En) ].
     all: try solve [ destruct (sfind E _ c') as [k0|] eqn:Ef; [|discriminate H];
                      first [ apply (dec_str_conf _ (SData c') _ _ H) | discriminate H ] ].
@@ -395,14 +577,29 @@ Section Conform.
     all: try solve [ destruct (mapM _ _) as [l0|] eqn:Em; [|discriminate H]; cbn [bind] in H;
                      try (destruct (forallb hashable l0); [|discriminate H]); inversion H; rewrite conf_unfold;
                      try (rewrite eqb_reflx; cbn [andb]; apply forallb_set_of_list);
-                     apply (forallb_mapM_res _ _ _ _ (fun (p: pv * pv) y Hp => match p as p0 return In p0 kvs -> (let (k, _) := p0 in ref_dec E P k t') = Ok y -> conf_g o E y t' = true with (k, x) => fun Hp' Hy => proj1 (Forall_In _ _ IHk (k, x) Hp') t' y Hy end Hp) Em) ].
+                     apply (forallb_mapM_res _ _ _ _ (fun (p: pv * pv) y Hp => match p as p0 return In p0 kvs -> (let (k, _) := p0 in ref_dec_l E P k t') = Ok y -> conf_g o E y t' = true with (k, x) => fun Hp' Hy => proj1 (Forall_In _ _ IHk (k, x) Hp') t' y Hy end Hp) Em) ].
+    (* dict / Mapping *)
+    all: try solve [
+      match type of H with (bind ?X _ = _) => destruct X as [r0|] eqn:Em end; [|discriminate H]; cbn [bind] in H; inversion H;
+      rewrite conf_unfold; rewrite nodup_dict_of_pairs; cbn [andb];
+      apply (forallb_dict_of_pairs _ r0 (fun _ _ _ _ => or_intror I) (fun k => conf_g o E k kt) (fun x => conf_g o E x vt) (fun k v => eq_refl));
+      refine (forallb_mapM_res _ _ _ _ _ Em); intros [k x] [k' x'] Hp Hy;
+      destruct (Forall_In _ _ IHk (k, x) Hp) as [Qk Qx]; cbn [fst snd] in Qk, Qx;
+      destruct (ref_dec_l E P k kt) as [k1|] eqn:Ek; [|discriminate Hy]; cbn [bind] in Hy;
+      destruct (ref_dec_l E P x vt) as [x1|] eqn:Ex; [|discriminate Hy]; cbn [bind] in Hy;
+      destruct (hashable k1); [|discriminate Hy]; inversion Hy; subst;
+      rewrite (Qk kt k' Ek), (Qx vt x' Ex); reflexivity ].
+    (* boxed collections *)
+    all: try solve [
+      match type of H with (bind ?X _ = _) => destruct X as [r0|] eqn:Er end; [|discriminate H]; cbn [bind] in H; inversion H;
+      apply box_conf; apply (IHt r0 eq_refl) ].
     - (* VList, STupleFix *)
       match type of H with (bind ?X _ = _) => destruct X as [r0|] eqn:Em end; [|discriminate H]. cbn [bind] in H. inversion H.
       rewrite conf_unfold. clear H H1. revert ts r0 Em. induction l as [|x l IHl']; intros ts r0 Em.
       + destruct ts as [|t1 ts]; [inversion Em; reflexivity | apply (none_tail_conf (t1 :: ts) r0 Em)].
       + destruct ts as [|t1 ts]; [inversion Em; reflexivity|].
         inversion IHl as [|? ? Qx Ql]; subst.
-        destruct (ref_dec E P x t1) as [y|] eqn:Ey; [|discriminate Em]. cbn [bind] in Em.
+        destruct (ref_dec_l E P x t1) as [y|] eqn:Ey; [|discriminate Em]. cbn [bind] in Em.
         match type of Em with (bind ?X _ = _) => destruct X as [ys|] eqn:Eys end; [|discriminate Em].
         inversion Em; subst. rewrite (Qx t1 y Ey). cbn [andb]. apply (IHl' Ql ts ys Eys).
     - (* VTuple, STupleFix *)
@@ -411,19 +608,9 @@ Section Conform.
       + destruct ts as [|t1 ts]; [inversion Em; reflexivity | apply (none_tail_conf (t1 :: ts) r0 Em)].
       + destruct ts as [|t1 ts]; [inversion Em; reflexivity|].
         inversion IHl as [|? ? Qx Ql]; subst.
-        destruct (ref_dec E P x t1) as [y|] eqn:Ey; [|discriminate Em]. cbn [bind] in Em.
+        destruct (ref_dec_l E P x t1) as [y|] eqn:Ey; [|discriminate Em]. cbn [bind] in Em.
         match type of Em with (bind ?X _ = _) => destruct X as [ys|] eqn:Eys end; [|discriminate Em].
         inversion Em; subst. rewrite (Qx t1 y Ey). cbn [andb]. apply (IHl' Ql ts ys Eys).
-    - (* VDict, SDict *)
-      match type of H with (bind ?X _ = _) => destruct X as [r0|] eqn:Em end; [|discriminate H]. cbn [bind] in H. inversion H.
-      rewrite conf_unfold. rewrite nodup_dict_of_pairs. cbn [andb].
-      apply (forallb_dict_of_pairs _ r0 (fun _ _ _ _ => or_intror I) (fun k => conf_g o E k kt) (fun x => conf_g o E x vt) (fun k v => eq_refl)).
-      refine (forallb_mapM_res _ _ _ _ _ Em). intros [k x] [k' x'] Hp Hy.
-      destruct (Forall_In _ _ IHk (k, x) Hp) as [Qk Qx]. cbn [fst snd] in Qk, Qx.
-      destruct (ref_dec E P k kt) as [k1|] eqn:Ek; [|discriminate Hy]. cbn [bind] in Hy.
-      destruct (ref_dec E P x vt) as [x1|] eqn:Ex; [|discriminate Hy]. cbn [bind] in Hy.
-      destruct (hashable k1); [|discriminate Hy]. inversion Hy; subst.
-      rewrite (Qk kt k' Ek), (Qx vt x' Ex). reflexivity.
     - (* VDict, SData *)
       destruct (sfind E _ c') as [k0|] eqn:Ef; [|discriminate H]. cbv zeta in H.
       match type of H with (bind ?X _ = _) => destruct X as [r0|] eqn:Em end; [|discriminate H]. cbn [bind] in H. inversion H.
@@ -443,9 +630,9 @@ Section Conform.
                      match es with
                      | [] => None
                      | (key, xd) :: er => if py_eq key (VStr f.(sf_name)) then Some xd else look er
-                     end) (map (fun p : pv * pv => match p with (key, x) => (key, (x, ref_dec E P x)) end) kvs) = oo ->
+                     end) (map (fun p : pv * pv => match p with (key, x) => (key, (x, ref_dec_l E P x)) end) kvs) = oo ->
                   match oo with
-                  | Some (x, dx) => conf_ok x /\ dx = ref_dec E P x
+                  | Some (x, dx) => conf_ok x /\ dx = ref_dec_l E P x
                   | None => True end).
         { clear Ey. induction kvs as [|[key x] kvs IHkvs]; intros oo Ho.
           - cbn in Ho. subst oo. exact I.
